@@ -120,6 +120,9 @@ func verifGenKV(r *zzverif.Rng) []verifKV {
 		alen := r.Pick3(0, 2, 5)
 		if r.Chance(1, 20) {
 			alen = 1025 // above the default maxArraySize: decoded without values
+		} else if r.Chance(1, 6) {
+			// both sides of the collection limits the cases use (maxArraySize 3, and 0 = 1024): `size <= limit` exactly
+			alen = zzverif.Pick(r, []int{3, 4, 1024})
 		}
 		switch r.Intn(8) {
 		case 0:
@@ -560,6 +563,12 @@ func verifC05CountArr(out *zzverif.Out, n, maxArray int) {
 	limit := maxArray
 	if limit == 0 {
 		limit = 1024
+	}
+	if limit >= 0 && n == limit {
+		out.Count("kv_array_at_limit")
+	}
+	if limit >= 0 && n == limit+1 {
+		out.Count("kv_array_limit_plus_1")
 	}
 	switch {
 	case n == 0:
